@@ -196,6 +196,14 @@ fn plan_c06(o: &Opts) -> Vec<GroupSpec> {
          m.labels = vec!["variant:PermuteInput".into()];
          members.push(MemberSpec { prog: prog.clone(), opts: PrintOpts::plain(Kind::Ascent), meta: m });
       }
+      // plan choices that depend on hash values (shard placement, sampled length estimates) only exist in the parallel
+      // form: every second program also runs as ascent_par!, and so do its constant-renamed variants
+      let par_ok = gen::par_rejects(&prog).is_none() && i % 2 == 1;
+      if par_ok {
+         let mut m = meta(&base, "base_par", Kind::AscentPar, false);
+         m.labels = vec!["variant:base_par".into()];
+         members.push(MemberSpec { prog: prog.clone(), opts: PrintOpts::plain(Kind::AscentPar), meta: m });
+      }
       if uninterpreted {
          for scheme in ["big", "str"] {
             let vp = xform::rename_consts(&prog, scheme);
@@ -207,7 +215,13 @@ fn plan_c06(o: &Opts) -> Vec<GroupSpec> {
             m.val_map = Some(scheme.to_string());
             m.check_ast = true;
             m.labels = vec![format!("variant:RenameConsts_{scheme}")];
-            members.push(MemberSpec { prog: vp, opts: PrintOpts::plain(Kind::Ascent), meta: m });
+            members.push(MemberSpec { prog: vp.clone(), opts: PrintOpts::plain(Kind::Ascent), meta: m });
+            if par_ok && gen::par_rejects(&vp).is_none() {
+               let mut m = meta(&base, &format!("RenameConsts_{scheme}_par"), Kind::AscentPar, false);
+               m.val_map = Some(scheme.to_string());
+               m.labels = vec![format!("variant:RenameConsts_{scheme}_par")];
+               members.push(MemberSpec { prog: vp, opts: PrintOpts::plain(Kind::AscentPar), meta: m });
+            }
          }
       }
       out.push(GroupSpec { members });
@@ -299,14 +313,62 @@ fn plan_c09(o: &Opts) -> Vec<GroupSpec> {
    while out.len() < n {
       let mut r = rng_for("C09", o.seed, i);
       i += 1;
-      let prog = gen::gen_any(&mut r, &GenCfg::core());
+      let mut prog = gen::gen_any(&mut r, &GenCfg::core());
       if prog.rels.iter().any(|d| d.cols.is_empty()) {
          continue;
       }
+      // an input relation that is read only under negation / aggregation (initialised relations that no positive clause
+      // or head mentions must still be indexed)
+      if r.chance(45) && !prog.rels.iter().any(|d| d.name == "gate" || d.name == "gated" || d.name == "gcount") {
+         use vcore::ast::*;
+         let src: Vec<RelDecl> = prog.rels.iter().filter(|d| !d.is_lattice && d.ds.is_none() && matches!(d.cols[0], Ty::I32 | Ty::U32 | Ty::Str)).cloned().collect();
+         if !src.is_empty() {
+            let s0 = r.pick(&src).clone();
+            let ty = s0.cols[0];
+            prog.rels.push(RelDecl { name: "gate".into(), cols: vec![ty], is_lattice: false, ds: None, is_input: true });
+            prog.rels.push(RelDecl { name: "gated".into(), cols: vec![ty], is_lattice: false, ds: None, is_input: false });
+            let mut args = vec![Arg::Var("gx".into())];
+            args.extend((1..s0.cols.len()).map(|_| Arg::Wild));
+            prog.rules.push(Rule {
+               heads: vec![HeadItem::Clause { rel: "gated".into(), args: vec![Expr::Var("gx".into())] }],
+               body: vec![BodyItem::Clause { rel: s0.name.clone(), args, conds: vec![] }, BodyItem::Neg { rel: "gate".into(), args: vec![Arg::Var("gx".into())] }],
+            });
+            if r.chance(50) {
+               prog.rels.push(RelDecl { name: "gcount".into(), cols: vec![Ty::I32], is_lattice: false, ds: None, is_input: false });
+               prog.rules.push(Rule {
+                  heads: vec![HeadItem::Clause { rel: "gcount".into(), args: vec![Expr::Cast(Box::new(Expr::Var("gn".into())), Ty::I32)] }],
+                  body: vec![BodyItem::Agg { pat: Pat::Var("gn".into()), agg: Aggregator::Count, bound: vec![], rel: "gate".into(), args: vec![Arg::Wild] }],
+               });
+            }
+         }
+      }
+      let prog = prog;
       let base = format!("C09-s{}-{}", o.seed, i - 1);
       let par_ok = gen::par_rejects(&prog).is_none();
       let n_items = prog.rels.len() + prog.rules.len();
       let plain_inputs: Vec<String> = prog.rels.iter().filter(|d| d.is_input && !d.is_lattice && d.ds.is_none()).map(|d| d.name.clone()).collect();
+      let positively_used: std::collections::BTreeSet<String> = {
+         fn walk(items: &[vcore::ast::BodyItem], out: &mut std::collections::BTreeSet<String>) {
+            for it in items {
+               match it {
+                  vcore::ast::BodyItem::Clause { rel, .. } => {
+                     out.insert(rel.clone());
+                  },
+                  vcore::ast::BodyItem::Disj(ds) => ds.iter().for_each(|d| walk(d, out)),
+                  _ => {},
+               }
+            }
+         }
+         let mut s = std::collections::BTreeSet::new();
+         for ru in &prog.rules {
+            walk(&ru.body, &mut s);
+            for (h, _) in ru.head_clauses() {
+               s.insert(h.clone());
+            }
+         }
+         s
+      };
+      let neg_only_inputs: Vec<String> = plain_inputs.iter().filter(|n| !positively_used.contains(*n)).cloned().collect();
       let mut members =
          vec![MemberSpec { prog: prog.clone(), opts: PrintOpts::plain(Kind::Ascent), meta: meta(&base, "ascent", Kind::Ascent, true) }];
       let mut add = |name: &str, opts: PrintOpts| {
@@ -315,6 +377,19 @@ fn plan_c09(o: &Opts) -> Vec<GroupSpec> {
          m.labels = vec![format!("packaging:{name}")];
          members.push(MemberSpec { prog: prog.clone(), opts, meta: m });
       };
+      if !neg_only_inputs.is_empty() && prog.macros.is_empty() {
+         // only relations that no positive clause or head mentions are initialised
+         for (name, kind) in [("ascent_run_init_unmentioned", Kind::AscentRun), ("initialised_unmentioned", Kind::Ascent)] {
+            let mut op = PrintOpts::plain(kind);
+            op.init_rels = neg_only_inputs.clone();
+            add(name, op);
+         }
+         if par_ok {
+            let mut op = PrintOpts::plain(Kind::AscentRunPar);
+            op.init_rels = neg_only_inputs.clone();
+            add("ascent_run_par_init_unmentioned", op);
+         }
+      }
       // a seeded choice of 5-6 packagings per base
       let mut kinds: Vec<usize> = (0..14).collect();
       r.shuffle(&mut kinds);
